@@ -120,6 +120,10 @@ func (g *structGen) newCounter() string {
 
 // simple: a statement that may stand without braces as a branch or loop body
 func (g *structGen) simple(c sgCtx) Stmt {
+	if c.inPattern && !c.inFunc && g.rng.IntN(12) == 0 {
+		g.stats["bare-print"]++
+		return Pr() // bare print: prints $
+	}
 	switch g.rng.IntN(3) {
 	case 0:
 		return g.trace(c)
@@ -173,7 +177,11 @@ func (g *structGen) body(c sgCtx, n int) *Block {
 
 func (g *structGen) maybeBraceless(c sgCtx) Stmt {
 	if g.rng.IntN(4) == 0 {
-		return g.simple(c)
+		s := g.simple(c)
+		if p, ok := s.(*Print); ok && len(p.Args) == 0 {
+			return Blk(s) // `if (c) print else ...` would read `else` as an argument
+		}
+		return s
 	}
 	return g.body(c.deeper(), 1+g.rng.IntN(2))
 }
@@ -202,7 +210,7 @@ func (g *structGen) stmt(c sgCtx) Stmt {
 			}
 		} else if g.rng.IntN(5) == 0 {
 			// nested brace-less if with an else: the else belongs to the inner if
-			st.Then = &If{C: g.cond(c, 1), Then: g.simple(c), Else: g.simple(c)}
+			st.Then = &If{C: g.cond(c, 1), Then: g.trace(c), Else: g.simple(c)}
 			g.stats["dangling-else"]++
 		}
 		return st
